@@ -138,10 +138,16 @@ def pixel_check(ctx):
         ops = ["M " + scene.fpt(60.0, 200.0), "L " + scene.fpt(200.0, 200.0),
                "L " + scene.fpt(200.0 + 140.0 * math.cos(ang), 200.0 + 140.0 * math.sin(ang))]
         width = rng.choice([200.0, 200.0, 160.0]); cap = ["butt", "round", "square"][(j // 3) % 3]; join = ["bevel", "round", "miter"][j % 3]; ml = 10.0
+        # every other one drawn a thousand times smaller in user space under a magnifying transform: round caps and joins a
+        # hundred device pixels in radius whose user-space radius is a fraction of a unit
+        sw_ = 1024.0 if j % 2 else 1.0
+        if sw_ != 1.0:
+            ops = [o if o == "Z" else "%s %d %d" % (o.split()[0], FB(bits_f32(int(o.split()[1])) / sw_), FB(bits_f32(int(o.split()[2])) / sw_)) for o in ops]
+            width = width / sw_
         style = "STYLE %d %s %s %d 0 %d" % (FB(width), cap, join, FB(ml), FB(0.0))
         scenes.append("scene %d %d %d I %s ; xf %s ; stroke %s %s SRC solid ffffffff 3 %d 1" % (
-            n + j, Wb, Wb, " ".join(["00000000"] * (Wb * Wb)), scene.xf_tokens(scene.IDENT), scene.path_tokens(ops, 0), style, FB(1.0)))
-        meta.append((ops, width, cap, join, ml, 1.0, 0.0, 0.0))
+            n + j, Wb, Wb, " ".join(["00000000"] * (Wb * Wb)), scene.xf_tokens((sw_, 0.0, 0.0, sw_, 0.0, 0.0)), scene.path_tokens(ops, 0), style, FB(1.0)))
+        meta.append((ops, width, cap, join, ml, sw_, 0.0, 0.0))
     # scenes kept from earlier failures (corpus): re-judged first
     import os
     ncorp = 0
